@@ -8,10 +8,14 @@ import MellonDriver.Cond
 import MellonDriver.Decomp
 import MellonDriver.Params
 import MellonDriver.Rank
+import MellonDriver.Inference
+import MellonDriver.Optimize
+import MellonDriver.Serial
+import MellonDriver.Persist
 open Mellon Drv
 
 /-- All handlers, tried in order. -/
-def handlers : List Handler := [handleKernel, handleCond, handleDecomp, handleRank, handleParams]
+def handlers : List Handler := [handleKernel, handleCond, handleDecomp, handleRank, handleParams, handleInference, handleOptimize, handleSerial, handlePersist]
 
 def handle : P String := do
   let op ← tok
